@@ -1475,6 +1475,16 @@ class Tr:
         return all(isinstance(a, (ast.Assign, ast.AugAssign, ast.If)) for a in b)
 
 
+def _header_only_response(tr, n):
+    """`GeminiResponse(status=self.status, meta=self.meta, body=None, url=…)` of the client protocols' `_deliver_header_only`: the response a
+    header line makes up - status and meta as parsed, NO body (the url is for the caller's bookkeeping and is not modelled)"""
+    kw = {k.arg: k.value for k in n.keywords}
+    if n.args or set(kw) - {"status", "meta", "body", "url"} or ast.unparse(kw.get("status", ast.Constant(0))) != "self.status" \
+            or ast.unparse(kw.get("meta", ast.Constant(0))) != "self.meta" or not (isinstance(kw.get("body"), ast.Constant) and kw["body"].value is None):
+        raise Unsupported("header-only response must be GeminiResponse(status=self.status, meta=self.meta, body=None, url=...)")
+    return "(Cl.headerResponse s)"
+
+
 def _static_response(tr, n):
     """`GeminiResponse(status=…, meta=…[, body=…])` of StaticFileHandler.handle as a constructor of Fs.SResp"""
     kw = {k.arg: k.value for k in n.keywords}
@@ -1687,6 +1697,16 @@ SPECS = [
          world_ops={"self._set_error": dict(fn="Cl.setError", ret=None, error_arg=True), "self.transport.close": dict(fn="Cl.closeTransport", ret=None),
                     "self._parse_header": dict(fn="Cl.parseHeader", ret=None),
                     "self._deliver_header_only": dict(fn="Cl.deliverHeader", ret=None)}),
+    dict(name="deliverHeaderOnly", file="client/protocol.py", cls="GeminiClientProtocol", func="_deliver_header_only", state="s", thread="s", implicit_return=True,
+         header="def deliverHeaderOnly (s : Cl.CSt) : Cl.CSt × Unit :=", state_type="Cl.CSt",
+         opaque={"self.response_future.done()": "(s.fut != .pending)"}, types={"self.response_future.done()": "bool"},
+         call_hooks={"GeminiResponse": _header_only_response},
+         world_ops={"self.response_future.set_result": dict(fn="Cl.setResult", ret=None)}),
+    dict(name="titanDeliverHeaderOnly", file="client/protocol.py", cls="TitanClientProtocol", func="_deliver_header_only", state="s", thread="s", implicit_return=True,
+         header="def titanDeliverHeaderOnly (s : Cl.CSt) : Cl.CSt × Unit :=", state_type="Cl.CSt",
+         opaque={"self.response_future.done()": "(s.fut != .pending)"}, types={"self.response_future.done()": "bool"},
+         call_hooks={"GeminiResponse": _header_only_response},
+         world_ops={"self.response_future.set_result": dict(fn="Cl.setResult", ret=None)}),
     dict(name="titanClientDataReceived", file="client/protocol.py", cls="TitanClientProtocol", func="data_received", mode="except", state="s", thread="s",
          implicit_return=True, header="def titanClientDataReceived (env : Cl.Env) (s : Cl.CSt) (data : List Nat) : Cl.CSt × Except Unit Unit :=",
          ret_type="Cl.CSt × Except Unit Unit",
@@ -1854,6 +1874,7 @@ PRELUDE = {
     "pumpResponse": (["NauyacaVerif.Srv.FlowPy"], []), "resumeWriting": (["NauyacaVerif.Srv.FlowPy", "NauyacaVerif.Gen.Fn.PumpResponse"], []),
     "pauseWriting": (["NauyacaVerif.Srv.FlowPy"], []), "sendResponse": (["NauyacaVerif.Srv.FlowPy", "NauyacaVerif.Gen.Fn.PumpResponse"], []), "connectionLost": (["NauyacaVerif.Srv.FlowPy"], []),
     "clientDataReceived": (["NauyacaVerif.Cl.PyClient"], []), "titanClientDataReceived": (["NauyacaVerif.Cl.PyClient"], []),
+    "deliverHeaderOnly": (["NauyacaVerif.Cl.PyClient"], []), "titanDeliverHeaderOnly": (["NauyacaVerif.Cl.PyClient"], []),
     "getSingleTail": (["NauyacaVerif.Cl.TofuEnv"], []), "uploadTail": (["NauyacaVerif.Cl.TofuEnv"], []),
     "tofuVerify": (["NauyacaVerif.Misc.SqlEnv"], []), "tofuTrust": (["NauyacaVerif.Misc.SqlEnv"], []), "tofuRevoke": (["NauyacaVerif.Misc.SqlEnv"], []),
     "tofuRevokeHost": (["NauyacaVerif.Misc.SqlEnv"], []), "tofuClear": (["NauyacaVerif.Misc.SqlEnv"], []),
